@@ -22,6 +22,7 @@
     +inf); the order is still right because the comparison falls through to utilisation-after. *)
 From Coq Require Import ZArith QArith List Bool Permutation Sorted.
 From TM Require Import Sched.Vec Sched.Types Sched.Queue Sched.QueueP Sched.MergeOrderP Gen.Tables.
+From TM Require Import Base.ShapeCanon.
 Import ListNotations.
 Open Scope Z_scope.
 
@@ -114,3 +115,10 @@ Proof.
   - cbn. repeat split; try discriminate; repeat constructor; try discriminate.
   - vm_compute. reflexivity.
 Qed.
+
+(** the functions of treadmill/scheduler/__init__.py these theorems were proved about still have the statement
+    skeleton the model was written from (re-extracted from the Python AST on every run, harness/tables_shape.py;
+    kept last so that a difference does not stop the theorems above from being checked) *)
+Theorem C06_source_shape : shapes_ok_C06 = true.
+Proof. vm_compute. reflexivity. Qed.
+Print Assumptions C06_source_shape.
